@@ -96,10 +96,14 @@ pub async fn run(ctx: &Ctx) {
 
     let mut a = Peer::new(ctx, &k, 0);
     let mut b = Peer::new(ctx, &k, 1);
+    let ndc = plan.knob("ndc", 1).clamp(1, 4) as usize;
     if k.has_dc() {
         a.add_dc(true);
         b.add_dc(true);
+        a.add_more_dcs(ndc - 1);
+        b.add_more_dcs(ndc - 1);
     }
+    let more_dcs: [Vec<Arc<DataChannel>>; 2] = [a.more_dcs.clone(), b.more_dcs.clone()];
     let pcs: [PeerConnection; 2] = [a.pc.clone(), b.pc.clone()];
     let state_rx = [pcs[0].subscribe_peer_state(), pcs[1].subscribe_peer_state()];
     let reason_rx = [pcs[0].subscribe_disconnect_reason(), pcs[1].subscribe_disconnect_reason()];
@@ -355,23 +359,28 @@ pub async fn run(ctx: &Ctx) {
             EV_BLOCKED_SENDER_CLOSE => {
                 ctx.net.set_blackhole(true);
                 lower_loss[other] = true;
-                if let Some(dc) = dcs[side].clone() {
-                    let pc = pcs[side].clone();
-                    let done = Arc::new(AtomicU32::new(0));
-                    let d2 = done.clone();
-                    let h = tokio::spawn(vh::wrap_task(async move {
-                        let chunk = vec![7u8; 16 * 1024];
-                        for _ in 0..256 {
-                            if pc.send_data(dc.id, &chunk).await.is_err() {
-                                break;
+                if let Some(dc0) = dcs[side].clone() {
+                    // one flooding sender per data channel: each of them ends up parked in the flow-control gate
+                    let mut all = vec![dc0];
+                    all.extend(more_dcs[side].iter().cloned());
+                    for dc in all {
+                        let pc = pcs[side].clone();
+                        let done = Arc::new(AtomicU32::new(0));
+                        let d2 = done.clone();
+                        let h = tokio::spawn(vh::wrap_task(async move {
+                            let chunk = vec![7u8; 16 * 1024];
+                            for _ in 0..256 {
+                                if pc.send_data(dc.id, &chunk).await.is_err() {
+                                    break;
+                                }
                             }
-                        }
-                        d2.store(1, Ordering::SeqCst);
-                    }));
+                            d2.store(1, Ordering::SeqCst);
+                        }));
+                        blocked_tasks.push((h, done, side));
+                    }
                     tokio::time::sleep(Duration::from_millis(500)).await;
                     pcs[side].close();
                     app_closed[side] = true;
-                    blocked_tasks.push((h, done, side));
                 } else {
                     pcs[side].close();
                     app_closed[side] = true;
@@ -484,6 +493,7 @@ pub async fn run(ctx: &Ctx) {
         h.abort();
     }
     drop(dcs);
+    drop(more_dcs);
     drop(pcs_opt);
     ctx.keys.lock().unwrap().clear();
     let mut ok = false;
@@ -583,6 +593,9 @@ pub fn generate(prop: &str, seed: u64, idx: u64, tier: Tier) -> Plan {
     p.knobs.insert("mode".into(), mode);
     p.knobs.insert("mix".into(), mixv);
     p.knobs.insert("offerer".into(), r.below(2) as i64);
+    if idx >= core || kind == EV_BLOCKED_SENDER_CLOSE {
+        p.knobs.insert("ndc".into(), *r.pick(&[1i64, 2, 3]));
+    }
     p.knobs.insert("ice_connection_timeout_ms".into(), 15_000);
     p.knobs.insert("ice_disconnect_threshold_ms".into(), 4_000);
     p.knobs.insert("ice_disconnect_grace_ms".into(), 3_000);
